@@ -276,6 +276,12 @@ fixed("F19g", "C19", "bd45867",
        "steps": [["new", "fa", fa("enfa", [[0, "a", 0]], [0], [1], pool="int")], ["new", "regex", {"text": "a"}],
                  ["new", "cfg", {"how": "text", "prods": [["S", [["V", "S"], ["T", "a"]]], ["S", [["T", "a"]]]], "start": "S", "tpool": "ab", "vpool": "std"}],
                  ["op", "c_inter_fa", [2, 0]], ["op", "c_inter_regex", [3, 1]]]})
+fixed("F19h", "C19", "3519e38",
+      "IndexedGrammar.is_empty answered from marks cached by an earlier call: after rules.remove_production(S, A, f) the "
+      "grammar S -> A[f], A[f] -> B, B -> b still answered non-empty",
+      {"family": "indexed_regex",
+       "steps": [["new", "ig", {"rules": [["prod", "S", "A", "f"], ["cons", "f", "A", "B"], ["end", "B", "b"]]}],
+                 ["mut3", 0, 0, 0]]})
 # ------------------------------------------------------------------ C06
 fixed("F06a", "C06", "2262869",
       "to_regex raised ValueError on automata with two start states",
